@@ -15,7 +15,7 @@ from sa.facts import result_sites
 from sa.guards import GuardView
 from sa.index import AnalysisError
 from sa.report import Ctx
-from sa.stutter import stutter_paths
+from sa.stutter import flag_loops_without_exit, stutter_paths
 from sa.undefined import implicit_none_paths, possibly_undefined, undefined_names, uninitialised_fields
 
 HERE = os.path.dirname(os.path.dirname(os.path.abspath(__file__)))
@@ -221,6 +221,8 @@ def generic_sweeps(ctx: Ctx, stutter: bool = True, skip_stutter_modules: tuple =
             if stutter and m.rel not in skip_stutter_modules:
                 heads, res = stutter_paths(f)
                 n_loops += len(heads)
+                for w_, desc_ in flag_loops_without_exit(f):
+                    ctx.ob(g + "2", "R22 STUTTER-FREE", f, f"`while {ast.unparse(w_.test)[:40]}` can end", False, desc_ + " - the call never returns", node=w_)
                 seen = set()
                 for h, desc in res:
                     if h.id in seen:
